@@ -318,7 +318,7 @@ def _prepare():
 SPEC = PropSpec(
     prop="C06",
     scenarios=[(1, C06Layout)],
-    runs={"quick": 3000, "thorough": 100000},
+    runs={"quick": 6000, "thorough": 150000},
     rule=("TWO-PARTY, no fault injected.  one run = one structure kind (Bloom, on-disk Bloom, counting Bloom, count-min "
           "min/mean/mean-min, expanding, rotating, cuckoo, counting cuckoo) with the default FNV-1a strategy and ASCII / "
           "bytes keys, a seeded operation history, and export points; at each export point (a) the independent writer "
